@@ -19,6 +19,8 @@ KINDS = {
     "dq": dict(ty="DqI", double=True),
     "pqn": dict(ty="PqN", double=False),
     "dqn": dict(ty="DqN", double=True),
+    "pqk": dict(ty="PqK", double=False),
+    "dqk": dict(ty="DqK", double=True),
 }
 
 INSTANCES = []
@@ -148,7 +150,7 @@ def _split():
                          cost=(40 if kind == "dq" else 10) * n)
     # extraction from identity tables (the sift starts at a concrete position): the sizes at
     # which the trickle-down reaches grandchildren of both children of the root
-    for n, t in ((6, QUICK), (7, QUICK), (8, THOROUGH), (9, THOROUGH), (15, THOROUGH), (16, THOROUGH)):
+    for n, t in ((6, QUICK), (7, QUICK), (8, THOROUGH), (9, THOROUGH), (15, THOROUGH), (16, THOROUGH), (17, THOROUGH), (18, THOROUGH)):
         for op in ("pop_lo", "pop_hi", "pop_lo_if"):
             if n >= 15 and op == "pop_lo_if":
                 continue
@@ -776,6 +778,40 @@ def _hasher():
                     t = THOROUGH
                 grp = "all" if op in ("push_increase", "get_mut", "change_priority_item") else "mo"
                 step(op, kind, n, "inv", grp, {"C18": t}, grow=grow)
+
+    # a hasher with per-instance state (every queue draws its own symbolic key, like
+    # RandomState): the operations in which two maps meet, and the keyed single-queue ones
+    for kind, base in (("pqk", "pq"), ("dqk", "dq")):
+        ty = KINDS[kind]["ty"]
+        dq = base == "dq"
+        for n, m, keys, t in ((1, 1, [0], QUICK), (1, 1, [1], QUICK), (2, 1, [1], QUICK), (1, 2, [0, 1], QUICK),
+                              (2, 2, [1, 2], THOROUGH), (3, 1, [2], THOROUGH)):
+            if dq and n + m > 2 and t == QUICK:
+                t = QUICK if (n, m) == (1, 2) else THOROUGH
+            inst(f"append_{kind}_n{n}_m{m}_k{''.join(map(str, keys))}",
+                 f"bulk::append::<{ty}, {n}, {m}, {seq_of(keys)}>(Pre::Inv, Tables::Any, step::ALL)",
+                 kind, n + m, {"C18": t}, "STEP",
+                 meta=dict(op="append", kind=kind, n=n, m=m, other_keys=keys, pre="inv", group="all", hasher="per-instance key"),
+                 covers_required=False, cost=(n + m) * (15 if dq else 4))
+        for n in (1, 2, 3):
+            t = tq(n, 1 if dq else 2, 3)
+            inst(f"eq_{kind}_n{n}_m{n}", f"misc::eq2::<{ty}, {n}, {n}>()", kind, n, {"C18": t, "C14": t}, "EQ",
+                 meta=dict(op="==", kind=kind, n=n, m=n, hasher="per-instance key"), covers_required=False)
+            inst(f"clone_{kind}_n{n}", f"misc::clone_indep::<{ty}, {n}>()", kind, n + 1, {"C18": t, "C14": t}, "EQ",
+                 meta=dict(op="clone", kind=kind, n=n, hasher="per-instance key"), covers_required=False, cost=(n + 1) * (40 if dq else 6))
+            inst(f"convert_{kind}_n{n}", f"bulk::convert::<{ty}, {n}>(Pre::Inv, Tables::Any, step::ALL)",
+                 base if dq else "dq", n, {"C18": t}, "STEP",
+                 meta=dict(op="From<other kind>", source=kind, n=n, pre="inv", group="all", hasher="per-instance key"),
+                 covers_required=False, cost=n * (4 if dq else 20))
+            keys = [0, n]
+            inst(f"extend_{kind}_n{n}_m2_xa_none",
+                 f"bulk::extend::<{ty}, {n}, 2, {seq_of(keys)}>(Pre::Inv, Tables::Any, step::ALL, bulk::H_NONE)",
+                 kind, n + 2, {"C18": t}, "STEP",
+                 meta=dict(op="extend", kind=kind, n=n, m=2, keys=keys, hint="none", pre="inv", group="all", hasher="per-instance key"),
+                 covers_required=False, cost=(n + 2) * 2 * (25 if dq else 4))
+        for op, grow in (("push", 1), ("remove", 0), ("change_priority", 0)):
+            for n in (1, 2, 3):
+                step(op, kind, n, "inv", "mo", {"C18": tq(n, 1 if dq else 2, 3)}, grow=grow)
 
 
 _hasher()
